@@ -110,6 +110,8 @@ def verify_function(index, contracts, c, props_filter=None):
             st.env[name] = make_param(ctx, st, name, kind)
         if c.free:
             st.env["$closure"] = {n: make_param(ctx, st, n, k) for n, k in c.free}
+        from .stubs import log_cell
+        log_cell(st)                      # the ghost log exists from the start so that loops constrain it
         if getattr(c, "setup", None):
             c.setup(ctx, st)
         if c.globals:
@@ -199,6 +201,8 @@ class _ResultView:
         self.new = new
         self.log = st.ghost.get("log", ())
         self.trace = st.heap[st.ghost["trace_cell"].oid].val if "trace_cell" in st.ghost else None
+        self.logseq = st.heap[st.ghost["log_cell"].oid].val if "log_cell" in st.ghost else None
+        self.yielded = st.heap[st.ghost["yield_cell"].oid].val if "yield_cell" in st.ghost else None
 
 
 def _frame_obligations(ctx, entry, final, ref, name, c):
